@@ -142,11 +142,11 @@ class SbMap(SObj):
         return NotImplemented
 
 
-def lexicon_object():
-    o = SObj(wn.Lexicon, name='lexicon')
+def lexicon_object(name='lexicon'):
+    o = SObj(wn.Lexicon, name=name)
     for k, kind in (('_id', 'int'), ('id', 'str'), ('label', 'str'), ('language', 'str'), ('email', 'str'),
                     ('license', 'str'), ('version', 'str'), ('url', 'str?'), ('citation', 'str?'), ('logo', 'str?')):
-        o.attrs[k] = make_value(kind, f'lexicon.{k}', ())
+        o.attrs[k] = make_value(kind, f'{name}.{k}', ())
     return o
 
 
@@ -175,6 +175,8 @@ def args_for(fn_name: str, version: str):
         return [[lexids, v]]
     if fn_name == '_export_lexicon':
         return [[lexicon_object(), v]]
+    if fn_name == '_precheck':
+        return [[MList([lexicon_object('lexA'), lexicon_object('lexB')])]]
     raise KeyError(fn_name)
 
 
@@ -182,12 +184,12 @@ VERSIONED = {'_export_senses', '_export_lexical_entries', '_export_synsets', '_e
 UNDER_TEST = ['_export_metadata', '_export_requires', '_export_tags', '_export_pronunciations', '_export_counts',
               '_export_examples', '_export_definitions', '_export_sense_relations', '_export_synset_relations',
               '_export_syntactic_behaviours_1_1', '_export_ili_definition', '_export_senses',
-              '_export_lexical_entries', '_export_synsets', '_export_lexicon']
+              '_export_lexical_entries', '_export_synsets', '_export_lexicon', '_precheck']
 
 
 def flow_obligations(fn_name: str) -> list:
     real = getattr(X, fn_name)
-    spec = getattr(spec_export, 'spec' + fn_name)
+    spec = getattr(spec_export, 'spec' + fn_name if fn_name.startswith('_export') else 'spec' + fn_name)
     obs = []
     for version in (VERSIONS if fn_name in VERSIONED else ['1.0']):
         for k, args in enumerate(args_for(fn_name, version)):
